@@ -7,6 +7,10 @@
      getTransaction: [op, proto, sig, status, slot, blocktime, pos, rsig, txsame, metasame]
      getBlockTime:   [op, proto, slot, status, blocktime]
    status \in {"ok", "notfound", "unavailable", "error", "panic"}.
+   The bidirectional gRPC Get stream is a sequence of unary calls: one response per request, in request order, carrying the
+   request's id, of the request's kind, or an in-band error that is NOT_FOUND exactly when the unary call is; the harness
+   projects every stream response to the record of the corresponding unary call (proto "grpc", detail "Get stream: ..."), a
+   missing / shifted / wrong-kind / wrong-id response to status "error".
    C02: for a key archived in a loaded epoch the call succeeds and reproduces the archive.
    C03: for any other key the answer is not-found / epoch-not-available - never an object of another key. *)
 EXTENDS Ledger
